@@ -368,6 +368,79 @@ Section HashProofs.
   End Connection.
 End HashProofs.
 
+(* the certificate chain: only the leaf counts *)
+Section ChainProofs.
+  Variable raw cert : Type.
+  Variable parse : raw -> option cert.
+  Variable H : string -> cert -> option string.
+
+  Lemma verify_peer_tail_irrelevant disabled fps leaf rest :
+    verify_peer raw cert parse H disabled fps (leaf :: rest) =
+    verify_peer raw cert parse H disabled fps [leaf].
+  Proof. reflexivity. Qed.
+
+  Lemma verify_peer_accept_leaf fps chain :
+    snd (verify_peer raw cert parse H false fps chain) = Ok tt ->
+    exists leaf rest c,
+      chain = leaf :: rest /\ parse leaf = Some c /\ cert_matches cert H fps c /\
+      fst (verify_peer raw cert parse H false fps chain) = Some leaf.
+  Proof.
+    destruct chain as [|leaf rest]; cbn [verify_peer snd fst]; [discriminate|].
+    destruct (parse leaf) as [c|] eqn:P; [|discriminate].
+    intro Hok. exists leaf, rest, c. repeat split; auto.
+    now apply validate_sound.
+  Qed.
+
+  (* a chain whose leaf does not match is rejected whatever follows the leaf,
+     in particular when a later entry is the very certificate that was
+     signalled *)
+  Lemma verify_peer_nonleaf_rejected fps leaf rest :
+    (forall c, parse leaf = Some c -> ~ cert_matches cert H fps c) ->
+    snd (verify_peer raw cert parse H false fps (leaf :: rest)) <> Ok tt.
+  Proof.
+    intros Hno Hok. apply verify_peer_accept_leaf in Hok.
+    destruct Hok as [l [r [c [Heq [P [Hm _]]]]]]. inversion Heq; subst.
+    exact (Hno c P Hm).
+  Qed.
+
+  Lemma verify_peer_records_leaf disabled fps leaf rest :
+    fst (verify_peer raw cert parse H disabled fps (leaf :: rest)) = Some leaf.
+  Proof. reflexivity. Qed.
+
+  Lemma verify_peer_empty disabled fps :
+    verify_peer raw cert parse H disabled fps [] = (None, Err "no-remote-certificate").
+  Proof. reflexivity. Qed.
+
+  Lemma verify_peer_never_panics disabled fps chain :
+    snd (verify_peer raw cert parse H disabled fps chain) <> Panic.
+  Proof.
+    destruct chain as [|leaf rest]; cbn [verify_peer snd]; [discriminate|].
+    destruct disabled; [discriminate|]. destruct (parse leaf); [|discriminate].
+    apply validate_never_panics.
+  Qed.
+  Lemma chain_leaf_only fps :
+    (forall chain, snd (verify_peer raw cert parse H false fps chain) = Ok tt ->
+       exists leaf rest c,
+         chain = leaf :: rest /\ parse leaf = Some c /\ cert_matches cert H fps c /\
+         fst (verify_peer raw cert parse H false fps chain) = Some leaf) /\
+    (forall leaf rest,
+       (forall c, parse leaf = Some c -> ~ cert_matches cert H fps c) ->
+       snd (verify_peer raw cert parse H false fps (leaf :: rest)) <> Ok tt) /\
+    (forall disabled leaf rest,
+       verify_peer raw cert parse H disabled fps (leaf :: rest) =
+       verify_peer raw cert parse H disabled fps [leaf]).
+  Proof.
+    repeat split.
+    - exact (verify_peer_accept_leaf fps).
+    - exact (verify_peer_nonleaf_rejected fps).
+  Qed.
+
+  Lemma chain_total disabled fps :
+    verify_peer raw cert parse H disabled fps [] = (None, Err "no-remote-certificate") /\
+    (forall chain, snd (verify_peer raw cert parse H disabled fps chain) <> Panic).
+  Proof. split; [reflexivity | exact (verify_peer_never_panics disabled fps)]. Qed.
+End ChainProofs.
+
 (* altering one character to a different letter/digit (not its case variant)
    changes the folded value *)
 Lemma lower_app a b : lower (a ++ b) = lower a ++ lower b.
